@@ -284,6 +284,45 @@ func tagOf(o core.Object) (string, bool) {
 	return "", false
 }
 
+// shapeOf renders the stored value of an object with its references left as references
+// (keys sorted, streams by dictionary only): what a shallow lookup returns.
+func shapeOf(o core.Object, depth int) string {
+	if depth > 6 {
+		return "..."
+	}
+	switch v := o.(type) {
+	case core.Dict:
+		keys := make([]string, 0, len(v))
+		for k := range v {
+			keys = append(keys, string(k))
+		}
+		sort.Strings(keys)
+		var b strings.Builder
+		b.WriteString("<<")
+		for _, k := range keys {
+			b.WriteString("/" + k + " " + shapeOf(v[k], depth+1) + " ")
+		}
+		b.WriteString(">>")
+		return b.String()
+	case core.Array:
+		var b strings.Builder
+		b.WriteString("[")
+		for _, e := range v {
+			b.WriteString(shapeOf(e, depth+1) + " ")
+		}
+		b.WriteString("]")
+		return b.String()
+	case *core.Stream:
+		return "stream" + shapeOf(v.Dict, depth+1)
+	case core.IndirectRef:
+		return fmt.Sprintf("%d %d R", v.Number, v.Generation)
+	case nil:
+		return "nil"
+	default:
+		return fmt.Sprintf("%T(%v)", o, o)
+	}
+}
+
 type op struct {
 	kind string // get | resolve | deep | clear | pages | xref
 	n    int
@@ -407,6 +446,21 @@ func runHistory(c *fw.Ctx, id string, h history, seed int64) {
 			return
 		}
 		defer rd.Close()
+		// stored shape of every object as a pristine reader gives it on its first shallow lookup
+		pristine := map[int]string{}
+		if rp, perr := reader.Open(path); perr == nil {
+			for _, seq := range seqs {
+				for _, o := range seq {
+					if _, done := pristine[o.n]; done || o.n == 0 {
+						continue
+					}
+					if g, gerr := rp.GetObject(o.n); gerr == nil {
+						pristine[o.n] = shapeOf(g, 0)
+					}
+				}
+			}
+			rp.Close()
+		}
 		for si, seq := range seqs {
 			if si == 1 && r.Intn(2) == 0 {
 				// descending sequence on a fresh reader half of the time
@@ -512,6 +566,12 @@ func runHistory(c *fw.Ctx, id string, h history, seed int64) {
 					if broken {
 						c.Count("deep_lookups_through_a_dead_reference", 1)
 						continue
+					}
+				}
+				if ps, ok := pristine[o.n]; ok && err == nil && (o.kind == "get" || o.kind == "resolve") {
+					c.Count("shallow_lookups_compared_with_a_pristine_reader", 1)
+					if gs := shapeOf(got, 0); gs != ps {
+						fails = append(fails, fail{"stored-value-changed", fmt.Sprintf("seq %d op %d %v: shallow lookup of object %d gives %s, a pristine reader gives %s (an earlier lookup changed what is stored)", si, oi, o, o.n, gs, ps)})
 					}
 				}
 				switch {
